@@ -74,6 +74,21 @@ fn check_slice(sub: &str, len: usize, start: Option<i32>, stop: Option<i32>, ste
                 ("search(Variable::try_from(&Value))", jmespath::Variable::try_from(&value).and_then(|v| e.search(v))),
                 ("search(BTreeMap<&str, Vec<usize>>)", e.search(std::collections::BTreeMap::from([("xs", (0..len).collect::<Vec<usize>>())]))),
             ];
+            // ... and with the array itself as the document (no enclosing object)
+            let top_text = &text[2..];
+            let top_value = serde_json::Value::Array((0..len).map(|i| serde_json::Value::from(i as u64)).collect());
+            let top = jmespath::compile(top_text).map_err(|e| Failure::new(sub, "harness-compile", e.to_string(), case.clone()))?;
+            let routes: Vec<(&str, Result<jmespath::Rcvar, jmespath::JmespathError>)> = routes
+                .into_iter()
+                .chain(vec![
+                    ("search(&Value) with the array as the document", top.search(&top_value)),
+                    ("search(Value) with the array as the document", top.search(top_value.clone())),
+                    ("search(Variable::try_from(Value)) with the array as the document", jmespath::Variable::try_from(top_value.clone()).and_then(|v| top.search(v))),
+                    ("search(Variable::try_from(&Value)) with the array as the document", jmespath::Variable::try_from(&top_value).and_then(|v| top.search(v))),
+                    ("search(Vec<usize>)", top.search((0..len).collect::<Vec<usize>>())),
+                    ("search(&[usize])", top.search(&(0..len).collect::<Vec<usize>>()[..])),
+                ])
+                .collect();
             for (route, r) in routes {
                 match r {
                     Ok(v) if var_to_j(&v).deep_eq(&want) => {
